@@ -97,6 +97,9 @@ func (d *c11) claim(n int) []byte {
 		return nil
 	}
 	off := int(addr(cl) - addr(d.base))
+	if addr(cl) < addr(d.base) || off > 2*d.size {
+		c.Failf("claim-outside-the-mapping", "Claim(%d) returned a slice that does not lie in the buffer's mapping", n)
+	}
 	if off != d.tail() {
 		c.Failf("claim-not-at-tail", "Claim(%d) starts at offset %d of the mapping; %d bytes are queued from offset %d, so successive commits must continue at offset %d (size %d)", n, off, d.used, d.head, d.tail(), d.size)
 	}
